@@ -49,6 +49,9 @@ structure Flags where
   setWifePointerClearsCache : Bool
   deleteNodesWithTagCopies : Bool
   warningsReadOnly : Bool
+  docSetNodesRebuildsPointers : Bool
+  docSetNodesClearsFamilies : Bool
+  docSetNodesResetsIndividuals : Bool
 deriving Repr, DecidableEq
 
 /-- a fact that could not be located (`none`) is taken at the value of correct code: the tie for
@@ -71,13 +74,17 @@ def Flags.ofRaw (r : Generated.RawCacheFlags) : Flags where
   setWifePointerClearsCache := r.setWifePointerClearsCache.getD true
   deleteNodesWithTagCopies := r.deleteNodesWithTagCopies.getD true
   warningsReadOnly := r.warningsReadOnly.getD true
+  docSetNodesRebuildsPointers := r.docSetNodesRebuildsPointers.getD true
+  docSetNodesClearsFamilies := r.docSetNodesClearsFamilies.getD true
+  docSetNodesResetsIndividuals := r.docSetNodesResetsIndividuals.getD true
 
 /-- the flags of the code as it is in /repo now -/
 def flags : Flags := Flags.ofRaw Generated.rawCacheFlags
 
 /-- every invalidation present: the flags the theorems are proved for -/
 def Flags.good : Flags :=
-  ⟨true, true, true, true, true, true, true, true, true, true, true, true, true, true, true, true, true⟩
+  ⟨true, true, true, true, true, true, true, true, true, true, true, true, true, true, true, true, true,
+   true, true, true⟩
 
 /-- the invalidations coherence depends on.  The three flags not listed are redundant given
     these: `SetHusbandPointer`/`SetWifePointer` clear the cached flag, but they go through
@@ -88,7 +95,8 @@ def Flags.sufficient (f : Flags) : Bool :=
   f.docAddStoresPointer && f.docAddClearsFamilies && f.docDeleteRebuildsPointers &&
   f.docDeleteClearsFamilies && f.docDeleteResetsIndividuals && f.addIndividualResetsIndividuals &&
   f.familyAddResetsCaches && f.familyDeleteResetsCaches && f.familySetNodesResetsCaches &&
-  f.deleteNodesWithTagCopies && f.warningsReadOnly
+  f.deleteNodesWithTagCopies && f.warningsReadOnly && f.docSetNodesRebuildsPointers &&
+  f.docSetNodesClearsFamilies && f.docSetNodesResetsIndividuals
 
 /-- the sufficient flags, with the three redundant ones left open -/
 def Flags.goodWith (b1 b2 b3 : Bool) : Flags :=
@@ -442,6 +450,13 @@ def docDelete (fl : Flags) (r : Id) (s : St) : St :=
     if fl.docDeleteResetsIndividuals then bumpFamilyLinks s else s
   else s
 
+/-- `Document.SetNodes(ks)` -/
+def docSetNodes (fl : Flags) (ks : List Id) (s : St) : St :=
+  let s := { s with roots := ks }
+  let s := if fl.docSetNodesClearsFamilies then { s with dfams := none } else s
+  let s := if fl.docSetNodesRebuildsPointers then { s with ptrIdx := buildIdx (abs s) } else s
+  if fl.docSetNodesResetsIndividuals then bumpFamilyLinks s else s
+
 /-- Go's `for _, x := range xs { if p x { parent.DeleteNode(x) } }` where `xs` *is* the child
     slice being shrunk in place: `arr` is the backing array (fixed length), `len` the live
     prefix, `i` the loop index.  Deleting shifts the live tail left and leaves the old last
@@ -596,6 +611,8 @@ inductive Op
   | addFamily (ptr : Str)
   | addFamilyHW (ptr : Str) (h w : Option Id)
   | docDelete (r : Id)
+  /-- `doc.SetNodes(ks)`, `ks` drawn from the current root records -/
+  | docSetNodes (ks : List Id)
   | setHusband (f : Id) (i : Option Id)
   | setWife (f : Id) (i : Option Id)
   | setHusbandPointer (f : Id) (p : Str)
@@ -678,6 +695,7 @@ def Op.ok (a : Abs) : Op → Bool
     ptrFreeOfIndi a p && (match h with | some h => isIndi a h | none => true) &&
       (match w with | some w => isIndi a w | none => true)
   | .docDelete _ => true
+  | .docSetNodes ks => ks.all (fun k => a.roots.contains k)
   | .setHusband f i | .setWife f i => isFam a f && (match i with | some i => isIndi a i | none => true)
   | .setHusbandPointer f _ | .setWifePointer f _ => isFam a f
   | .addChild f i => isFam a f && isIndi a i
@@ -699,6 +717,7 @@ def exec (fl : Flags) (s : St) : Op → St × Obs
   | .addFamily p => (addFamily fl p s, .none)
   | .addFamilyHW p h w => (setOrClear fl false s.heap.length w (setOrClear fl true s.heap.length h (addFamily fl p s)), .none)
   | .docDelete r => (docDelete fl r s, .none)
+  | .docSetNodes ks => (docSetNodes fl ks s, .none)
   | .setHusband f i => (setOrClear fl true f i s, .none)
   | .setWife f i => (setOrClear fl false f i s, .none)
   | .setHusbandPointer f p => (setSpousePointer fl true f p s, .none)
